@@ -1,7 +1,7 @@
 """C10 — population bookkeeping on spectra equals explicit index arithmetic, keeps labels.
 
-K : Spectrum.marginalize / filter_pops / reorder_pops / combine_two_pops / combine_pops / scramble_pop_ids / fold / unfold and
-    Misc.combine_pops on random spectra vs the exact-rational Lean model (Model/PopOps.lean through Driver/PopOps.lean):
+K : Spectrum.marginalize / filter_pops / reorder_pops / combine_two_pops / combine_pops / scramble_pop_ids / fold / unfold /
+    _project_one_axis and Misc.combine_pops on random spectra vs the exact-rational Lean model (Model/PopOps.lean through Driver/PopOps.lean):
     shape, mask, data at unmasked entries, labels, folded flag, NaN cells (scramble), "raises" for rejected arguments.
 L3: the property statement evaluated directly on the implementation with explicit loops over numpy.ndindex (no Lean, no model):
     explicit re-indexing, totals, labels, commutation with fold and with project, flags honoured.
@@ -438,6 +438,20 @@ def case_foldunfold(chk, ctx, fs):
     compare_model(chk, op, inp, res, out)
     chk.stat('op:' + op)
 
+def case_project_one(chk, ctx, fs, k, m):
+    """K only: the model of `_project_one_axis` (used by the proved commutation with marginalize) against the implementation"""
+    driver = ctx['driver']
+    if driver is None or not driver.ok():
+        return
+    inp = dict(op='_project_one_axis', axis=int(k), n=int(m), fs=spec_json(fs))
+    res, exc = call(lambda: fs._project_one_axis(int(m), int(k)))
+    out = ask(driver, 'proj1', str(int(k)), str(int(m)), fs)
+    chk.stat('op:_project_one_axis')
+    if exc is not None:
+        (chk.k_ok('_project_one_axis:rejects') if out == 'err raises' else chk.k_bad('_project_one_axis:rejects', inp, repr(exc), out, None))
+        return
+    compare_model(chk, '_project_one_axis', inp, res, out)
+
 def case_misc(chk, ctx, fs, idx):
     """Misc.combine_pops (2-D / 3-D only), unfolded input"""
     dadi = ctx['dadi']; driver = ctx['driver']
@@ -623,6 +637,11 @@ def one_round(chk, ctx, rng, cap, d):
     # fold / unfold of the model
     fs7, _ = gen_spectrum(ctx, rng, d, cap)
     case_foldunfold(chk, ctx, fs7)
+    # one-axis projection (model used by C10_commute_project_marginalize)
+    fs9, _ = gen_spectrum(ctx, rng, d, cap, folded=False)
+    k9 = int(rng.integers(d)); n9 = fs9.shape[k9] - 1
+    m9 = int(rng.integers(1, n9 + 1)) if rng.random() < 0.9 else n9 + 1
+    case_project_one(chk, ctx, fs9, k9, m9)
     # Misc.combine_pops
     if d in (2, 3):
         fs8, _ = gen_spectrum(ctx, rng, d, cap, maskmode=['std', 'none'][int(rng.integers(2))], folded=False)
@@ -696,8 +715,8 @@ def run(chk, ctx):
                 'non-trivial = distinct (operation, #populations, #axes touched, folded, labelled, flag, mask kind)'
                 % ('300 (quick) / 1000 (thorough)'))
     chk.unproved = [
-        'commutation with projection (marginalize/filter/reorder/combine on untouched axes; project(scramble) = re-deal(project(pool))) is validated numerically on the implementation (L3), not proved',
-        'commutation of reorder_pops with folding is validated numerically (L3) (proved: combine_two_pops, marginalize, and the generic statement for any count-preserving mirror-equivariant re-indexing)',
+        'commutation with projection is proved for one summed axis vs one projected axis (any kernel; unmasked data); the assembly to several axes, and reorder/combine/scramble vs projection (project(scramble) = re-deal(project(pool))) are validated numerically on the implementation (L3)',
+        'mask bookkeeping of the folded paths (unfold -> sum -> mask corners -> fold) is validated by K; the fold-commutation theorems are about data',
         'the loops of the implementation are tied to the model by correspondence (K); translated (T) are only the three list programs and the mask statement of combine_two_pops, the filter_pops call and the Misc.combine_pops table',
         'direction "result masked => some contributor masked or corner" of iterated combine_pops is only K-validated (proved: unmasked result => no masked contributor and data = explicit sum)',
         'round-off: floats vs exact rationals compared at 1e-9 relative to the array scale; binomials via exp(gammaln) in scramble_pop_ids',
@@ -732,6 +751,8 @@ def replay(chk, ctx, data):
         case_scramble(chk, ctx, fs, inp['mask_corners'])
     elif op == 'Misc.combine_pops':
         case_misc(chk, ctx, fs, inp['idx'])
+    elif op == '_project_one_axis':
+        case_project_one(chk, ctx, fs, inp['axis'], inp['n'])
     elif op.startswith('commute_fold:'):
         commute_fold(chk, ctx, fs, rng, forced=(op.split(':', 1)[1], inp.get('args') or {}))
     elif op.startswith('commute_project:'):
